@@ -2143,7 +2143,10 @@ def distributed_shampoo(
     """Derives largest preconditioner dimension."""
     if compression_rank != 0:
       dim = _precond_dim(compression_rank, max_size)
-      assert dim < max_size, ("all layers are too small for compression_rank")
+      if dim >= max_size:
+        raise ValueError(
+            f"all layers are too small for compression_rank={compression_rank}:"
+            f" the largest statistic is {max_size}x{max_size}")
       return dim
     return max_size
 
@@ -3491,6 +3494,10 @@ def distributed_shampoo(
         statistics.extend(state.statistics)
         prev_preconditioners.extend(state.preconditioners)
         original_shapes.extend(original_shapes_for_state)
+
+    if statistics:
+      # Raises if compression is requested but no statistic is large enough.
+      precond_dim(max_size)
 
     if not shard_optimizer_states:
       # Quantization is only enabled if batch_axis_name is not set.
